@@ -152,6 +152,19 @@ func GenGroups(r *core.Rng, job string) []TG {
 				nd["__meta_kubernetes_pod_container_port_name"] = r.PickS("metrics", "http")
 				tg.Targets = append(tg.Targets, nd)
 			}
+			if r.Intn(8) == 0 { // two DIFFERENT targets whose labels read alike once names and values are glued together with a separator
+				sep := r.PickS(";", ",", "=", "\x00", "\n", "\",\"", "|", " ")
+				a, b := map[string]string{}, map[string]string{}
+				for k, v := range ls {
+					a[k], b[k] = v, v
+				}
+				a["sepa"] = "web" + sep + "sepb=prod"
+				if sep == "=" {
+					a["sepa"] = "web=sepb=prod"
+				}
+				b["sepa"], b["sepb"] = "web", "prod"
+				tg.Targets = append(tg.Targets, a, b)
+			}
 			if r.Intn(6) == 0 { // exact duplicate inside the group
 				dup := map[string]string{}
 				for k, v := range ls {
@@ -204,7 +217,7 @@ func discover(cfgText string, groups map[string][]TG, rounds int) (*discovery.Ta
 func identity(t *discovery.SDTargets) string {
 	var ls []string
 	for _, l := range t.ShardTarget.Labels {
-		ls = append(ls, l.Name+"="+l.Value)
+		ls = append(ls, fmt.Sprintf("%q=%q", l.Name, l.Value)) // quoted: no label value can imitate a name/value boundary
 	}
 	sort.Strings(ls)
 	return strings.Join(ls, ",") + " @ " + t.PromTarget.URL().String()
